@@ -81,3 +81,39 @@ Proof.
   destruct (v_qops v) as [|o tl] eqn:Eq; [exact H|]. apply IH.
   apply find_some in Ef. destruct Ef as [Hin _]. eapply Hc; eassumption.
 Qed.
+
+(* ---- Synchronize: first section, staged (the intermediate states are abstracted) ------------- *)
+Ltac sum_cases H :=
+  repeat (match type of H with
+          | (match ?y with _ => _ end) = _ => head_disc y ltac:(fun z => destruct z eqn:?)
+          end);
+  try discriminate H.
+
+Lemma sync_start_closed (P : state -> Prop) c a :
+  (forall s code, P s -> P (ret c code s)) ->
+  (forall s k, P s -> P (upd_scq k (fun q => q <| q_cleanup := None |>) s)) ->
+  (forall s k b, P s -> P (add_scq k b s)) ->
+  (forall s k l m b, P s -> P (add_pq k l m b s)) ->
+  (forall s w, P s -> P (upd_worker w (fun k => k <| k_cleanup := None |>) s)) ->
+  (forall s k w n, P s -> P (upd_scq k (fun q => q <| q_workers ::= fun l => l ++ [(w, mkWorker None None false (Some []) false (repeat 0 n))] |>) s)) ->
+  (forall s i, P s -> P (upd_inv i (fun v => v <| v_idle ::= N.succ |>) s)) ->
+  (forall s w code, P s -> P (sync_return_err c w code s)) ->
+  (forall s w b pr, P s -> P (get_current_or_next c w b pr s)) ->
+  (forall s w b pr, P s -> P (get_next_task c w b pr s)) ->
+  (forall s w d z, P s -> P (finish_sync c w (emit (OSync c d z) s))) ->
+  (forall s w t r, P s -> k_task (get_worker s w) = Some t -> P (complete_task t r true s)) ->
+  forall s, P s -> P (sync_start c a s).
+Proof.
+  intros Hret Hdis Hscq Hpq Hkdis Hnw Hidle Herr Hcur Hnext Hnone Hcomp s H.
+  unfold sync_start. cbv zeta.
+  match goal with |- P (match ?R with _ => _ end) => destruct R as [s1|code1] eqn:ER end; [|apply Hret; exact H].
+  assert (H1 : P s1) by (sum_cases ER; injection ER as <-; auto).
+  clear ER H. revert H1. generalize s1. clear s. intros s H.
+  match goal with |- P (match ?R with _ => _ end) => destruct R as [s2|code2] eqn:ER end; [|apply Hret; exact H].
+  assert (H2 : P s2) by (sum_cases ER; injection ER as <-; auto).
+  clear ER H. revert H2. generalize s2. clear s. intros s H.
+  destruct (y_state a) as [|d|d r|]; auto.
+  - destruct (running_correct s (y_worker a) d); auto.
+  - destruct (running_correct s (y_worker a) d); auto.
+    destruct (k_task (get_worker s (y_worker a))) as [t|] eqn:Ek; [|exact H]. apply Hnext. eapply Hcomp; eassumption.
+Qed.
